@@ -7,7 +7,7 @@ import re
 from ..absint import Const, Obj, Tup, explore, vkey
 from ..core import Unrecognised
 from ..lin import Lin
-from ..repo import chain, params, src, strip_docstring, calls
+from ..repo import chain, params, src, strip_docstring, calls, assigning_stmts
 from ..tables import Bool, Sign, check_table, SKIP
 
 
@@ -84,7 +84,7 @@ def r1_best(repo, report):
     env = {"self": Obj("self", nonnull=True)}
     for p in ap[1:]:
         env[p] = Obj(p.upper())
-    ifs = [n for n in ast.walk(ac_init) if isinstance(n, ast.If) and any(chain(x.func) == "MultipleAdapters" for x in ast.walk(n) if isinstance(x, ast.Call))]
+    ifs = assigning_stmts(ac_init, "self.adapters")
     if len(ifs) != 1:
         raise Unrecognised("AdapterCutter.__init__: MultipleAdapters construction not found", repo.loc(ac_init))
     rows = explore(repo, [ifs[0]], env, inline=False)
